@@ -4,6 +4,7 @@ ciphertext pieces in their original order gives back the plaintext image (applic
 TrustZone data), and the independent ROM model (Spec/MbiRom.lean) accepts what the model exports - given what its walk over
 the (opaque) certificate block answers.
 -/
+import SpsdkVerif.Proofs.MbiRomFlags
 import SpsdkVerif.Proofs.MbiEncrypted
 import SpsdkVerif.Proofs.MbiRomDefs
 
@@ -103,7 +104,7 @@ theorem romenc_flags (hl : CryptoLaws co) (hc : EncCls c) (hk : EncCfg c cfg) (s
 
 theorem romenc_ksflag (hc : EncCls c) (hk : EncCfg c cfg) :
     (flagsOf c cfg &&& Spec.MbiRom.flagKeyStore != 0) = cfg.keyStore.isSome :=
-  (encrypted_flag_fields hc hk).2.2.2.1
+  (rom_ks _).trans (encrypted_flag_fields hc hk).2.2.2.1
 
 theorem romenc_romHmac (hl : CryptoLaws co) (hc : EncCls c) (hk : EncCfg c cfg) (hn : EncLens co c cfg signer)
     (rkth : Bytes) :
@@ -358,9 +359,9 @@ theorem rom_accepts_encrypted (h : Hyp co env c cfg signer) (hf : c.family = som
   have htype : (flagsOf c cfg &&& Spec.MbiRom.maskImageType) = 3 := by
     have := romenc_imageType hc hk
     rw [hty] at this
-    exact this
+    exact (rom_type _).trans this
   have htz : ((flagsOf c cfg >>> Spec.MbiRom.shiftTzType) &&& Spec.MbiRom.maskTzType) = cfg.tz.tag :=
-    (encrypted_flag_fields hc hk).1
+    (rom_tz _).trans (encrypted_flag_fields hc hk).1
   have hlen : decide ((encImg co c cfg signer).length ≥ Spec.MbiRom.ivtSize) = true := by
     have h1 := encImg_len hn
     have h2 := hn.hL
